@@ -4,12 +4,28 @@
 #include <unistd.h>
 #include <cstdio>
 #include <cstring>
+#include <cstdlib>
+#include <new>
 #include <exception>
 #include <iostream>
 #include "crash.h"
 #include "h.hpp"
 
 namespace Teakra { class UnimplementedException; }
+
+// Every heap allocation of the harness process is filled with a known byte (0 by default), so that
+// members the constructors leave uninitialised (ICU vector arrays, Interpreter::vinterrupt_address …)
+// do not make the unchanged tree look non-deterministic.  The C17 slice changes the fill byte on
+// purpose (`g_new_fill`) to expose exactly those members.
+unsigned char g_new_fill = 0;
+void* operator new(std::size_t n) {
+    void* p = std::malloc(n ? n : 1);
+    if (!p) throw std::bad_alloc();
+    std::memset(p, g_new_fill, n);
+    return p;
+}
+void operator delete(void* p) noexcept { std::free(p); }
+void operator delete(void* p, std::size_t) noexcept { std::free(p); }
 
 std::map<std::string, Handler>& Registry() {
     static std::map<std::string, Handler> r;
